@@ -178,3 +178,63 @@ def normalize_ifexp(P):
         if n_sites[0] != before:
             f.node.body = body
     return n_sites[0]
+
+
+def normalize_next_genexp(P):
+    """`t = next(e for v in it if c)` is the search loop `for v in it: if c: t = e; break` (without a default,
+    "nothing found" is a crash in both spellings: StopIteration there, an unbound local here; neither is modelled)."""
+    import copy
+    n_sites = [0]
+
+    def conv(stmt, taken):
+        if not (isinstance(stmt, ast.Assign) and len(stmt.targets) == 1 and isinstance(stmt.value, ast.Call)):
+            return None
+        c = stmt.value
+        if not (isinstance(c.func, ast.Name) and c.func.id == "next" and len(c.args) == 1 and not c.keywords and isinstance(c.args[0], ast.GeneratorExp)):
+            return None
+        g = c.args[0]
+        if len(g.generators) != 1 or g.generators[0].is_async or not isinstance(g.generators[0].target, ast.Name):
+            return None
+        comp = g.generators[0]
+        if comp.target.id in taken:
+            return None  # the loop variable would leak over a local of the same name
+        asg = ast.Assign(targets=copy.deepcopy(stmt.targets), value=copy.deepcopy(g.elt))
+        inner = [asg, ast.Break()]
+        for cond in reversed(comp.ifs):
+            inner = [ast.If(test=copy.deepcopy(cond), body=inner, orelse=[])]
+        loop = ast.For(target=ast.Name(id=comp.target.id, ctx=ast.Store()), iter=copy.deepcopy(comp.iter), body=inner, orelse=[])
+        n_sites[0] += 1
+        ast.copy_location(loop, stmt)
+        for x in ast.walk(loop):
+            if not hasattr(x, "lineno"):
+                ast.copy_location(x, stmt)
+        return ast.fix_missing_locations(loop)
+
+    def rewrite(block, taken):
+        res = []
+        for s_ in block:
+            for fld in ("body", "orelse", "finalbody"):
+                sub = getattr(s_, fld, None)
+                if isinstance(sub, list) and sub and isinstance(sub[0], ast.stmt):
+                    setattr(s_, fld, rewrite(sub, taken))
+            if isinstance(s_, ast.Try):
+                for h in s_.handlers:
+                    h.body = rewrite(h.body, taken)
+            new = conv(s_, taken)
+            res.append(new if new is not None else s_)
+        return res
+
+    for f in list(P.funcs.values()):
+        if f.module.is_tools or f.parent is not None:
+            continue
+        if not any(isinstance(n, ast.GeneratorExp) for n in ast.walk(f.node)):
+            continue
+        taken = set(f.all_params())
+        for n in ast.walk(f.node):
+            if isinstance(n, ast.Name) and not any(n is x for ge in ast.walk(f.node) if isinstance(ge, ast.GeneratorExp) for x in ast.walk(ge)):
+                taken.add(n.id)
+        before = n_sites[0]
+        body = rewrite(f.node.body, taken)
+        if n_sites[0] != before:
+            f.node.body = body
+    return n_sites[0]
